@@ -17,7 +17,7 @@ from common import Check, Infra, harness_json, validate_chunks, workdir, tlc_mus
 # (start symbol, free start choice, budget quick, budget thorough)
 # (start symbol, free start choice, budget quick, budget thorough, budget thorough for the heavy checks)
 # heavy = several renderings / per-node work per sentence (C05 C06 C16 C17 C19, and C04 as part of the parser family)
-STARTS = [("E12", False, 2, 3, 3), ("Type", False, 2, 3, 3), ("QueryStatement", False, 2, 3, 3), ("QS_From", False, 2, 3, 2), ("QS_Suffix", True, 2, 3, 2), ("QS_Table", False, 1, 2, 2),
+STARTS = [("E12", False, 2, 3, 3), ("Type", False, 3, 4, 4), ("QueryStatement", False, 2, 3, 3), ("QS_From", False, 2, 3, 2), ("QS_Suffix", True, 2, 3, 2), ("QS_Table", False, 1, 2, 2),
           ("DML", True, 1, 2, 2), ("Call", False, 1, 2, 2), ("DDL", True, 2, 3, 2),
           ("FE_Arg", False, 1, 2, 2), ("FE_Mod", False, 1, 2, 1), ("FD_Col", False, 1, 2, 1), ("FD_Seq", False, 1, 2, 2), ("FD_Ident", False, 1, 2, 2), ("FD_PG", False, 1, 2, 2),
           ("FD_PGProps", False, 1, 2, 2), ("FD_CS", False, 1, 2, 2), ("FM_Return", False, 1, 2, 2)]
